@@ -460,3 +460,309 @@ func runTList(c *load.Ctx, r *report.RuleResult) {
 		}
 	}
 }
+
+func init() {
+	register(&Rule{ID: "T-ast", Min: 6, Run: runTAst,
+		Doc: "AST content that must mirror the text: object properties appear in declaration order, each with its stored key and the key-shortcut flag recorded when the key was read, taken from the child at the key's own index; a rule that keeps its source text (min, max) renders that text, not a re-formatted number"})
+}
+
+func runTAst(c *load.Ctx, r *report.RuleResult) {
+	e := newAbsNodeEnv(c)
+	// (1) rule values rendered from the raw text
+	for _, ci := range e.byVal {
+		if ci.named == nil {
+			continue
+		}
+		if fieldTypeOf(ci.named, "rawValue") == nil {
+			continue
+		}
+		fn := c.Func(pkgConstraint, ci.named.Obj().Name()+".ASTNode")
+		key := "rulevalue|" + ci.named.Obj().Name()
+		if fn == nil {
+			r.Unk(key, "", "ASTNode method not found")
+			continue
+		}
+		outs := pe.ExploreFn(e.cfg, func(in *pe.Interp) pe.Value {
+			var recv pe.Value = pe.NewSym("c", ci.named)
+			if _, isPtr := fn.Params[0].Type().Underlying().(*types.Pointer); isPtr {
+				recv = pe.NewSym("c", types.NewPointer(ci.named))
+			}
+			return in.Call(fn, []pe.Value{recv})
+		})
+		if len(outs) != 1 || outs[0].Undecided != "" || outs[0].Panicked {
+			r.Unk(key, c.Pos(fn.Pos()), "not a single interpretable path")
+			continue
+		}
+		val := "?"
+		if sv, ok := outs[0].Ret.(*pe.StructV); ok {
+			st := sv.T.Underlying().(*types.Struct)
+			for i := 0; i < st.NumFields(); i++ {
+				if st.Field(i).Name() == "Value" {
+					val = pe.Show(sv.F[i])
+				}
+			}
+		}
+		if strings.Contains(val, "rawValue") && !strings.Contains(val, "str(") {
+			r.OK(key, c.Pos(fn.Pos()), "value "+val)
+		} else {
+			r.Bad(key, c.Pos(fn.Pos()), "the rule's AST value is "+val+": it must be the rule text as written (the constraint keeps it in rawValue), not a re-formatted number (10.50 would come back as 10.5)")
+		}
+	}
+	// (2) object properties
+	fn := c.Func(pkgSchema, "ObjectNode.collectASTProperties")
+	objT := namedType(c, pkgSchema, "ObjectNode")
+	keysT := namedType(c, pkgSchema, "ObjectNodeKeys")
+	keyT := namedType(c, pkgSchema, "ObjectNodeKey")
+	if fn == nil || objT == nil || keysT == nil || keyT == nil {
+		r.Unk("anchor|schema.ObjectNode.collectASTProperties", "", "not found")
+		return
+	}
+	pos := c.Pos(fn.Pos())
+	astT := fn.Signature.Results().At(0).Type().(*types.Slice).Elem()
+	prefix := "invoke:" + types.TypeString(e.nodeT, nil) + "."
+	e.cfg.Intrinsics[prefix+"ASTNode"] = func(in *pe.Interp, args []pe.Value) (pe.Value, bool) {
+		name := strings.Trim(pe.Show(args[0]), "‹›")
+		named := astT.(*types.Named)
+		st := named.Underlying().(*types.Struct)
+		sv := &pe.StructV{T: named, F: make([]pe.Value, st.NumFields())}
+		for i := 0; i < st.NumFields(); i++ {
+			sv.F[i] = pe.NewSym("ast("+name+")."+st.Field(i).Name(), st.Field(i).Type())
+		}
+		return &pe.Tuple{E: []pe.Value{sv, pe.NilV{}}}, true
+	}
+	outs := pe.ExploreFn(e.cfg, func(in *pe.Interp) pe.Value {
+		mkKey := func(i int, idx int64) pe.Value {
+			st := keyT.Underlying().(*types.Struct)
+			sv := &pe.StructV{T: keyT, F: make([]pe.Value, st.NumFields())}
+			for k := 0; k < st.NumFields(); k++ {
+				switch st.Field(k).Name() {
+				case "Index":
+					sv.F[k] = idx
+				case "IsShortcut":
+					sv.F[k] = in.Choose(fmt.Sprintf("key%d.IsShortcut", i), []string{"false", "true"}) == 1
+				default:
+					sv.F[k] = pe.NewSym(fmt.Sprintf("key%d.%s", i, st.Field(k).Name()), st.Field(k).Type())
+				}
+			}
+			return sv
+		}
+		// two keys whose children are stored in the opposite order, to tell Index from position
+		keys := symStruct(in, keysT, "keys", map[string]pe.Value{"Data": in.MakeSliceOf([]pe.Value{mkKey(0, 1), mkKey(1, 0)}, 2)})
+		children := in.MakeSliceOf([]pe.Value{pe.NewSym("childA", e.nodeT), pe.NewSym("childB", e.nodeT)}, 2)
+		obj := symStruct(in, objT, "obj", map[string]pe.Value{"keys": keys, "children": children})
+		return in.Call(fn, []pe.Value{obj})
+	})
+	for _, o := range outs {
+		val := o.ChoiceMap()
+		key := fmt.Sprintf("props|key0.shortcut=%s|key1.shortcut=%s", val["key0.IsShortcut"], val["key1.IsShortcut"])
+		if o.Undecided != "" || o.Panicked {
+			r.Unk(key, pos, o.Exit())
+			continue
+		}
+		tp, ok := o.Ret.(*pe.Tuple)
+		if !ok || len(tp.E) != 2 {
+			r.Unk(key, pos, "unexpected result "+pe.Show(o.Ret))
+			continue
+		}
+		elems, ok := pe.SliceElems(tp.E[0])
+		if !ok || len(elems) != 2 {
+			r.Bad(key, pos, fmt.Sprintf("two properties must yield two AST children in declaration order: %s", pe.Show(tp.E[0])))
+			continue
+		}
+		problem := ""
+		wantChild := []string{"childB", "childA"} // key0 -> Index 1, key1 -> Index 0
+		for i, el := range elems {
+			sv, ok := el.(*pe.StructV)
+			if !ok {
+				problem = "property is not an AST node value"
+				break
+			}
+			st := sv.T.Underlying().(*types.Struct)
+			for k := 0; k < st.NumFields(); k++ {
+				got := pe.Show(sv.F[k])
+				switch st.Field(k).Name() {
+				case "Key":
+					if got != fmt.Sprintf("‹key%d.Key›", i) {
+						problem = fmt.Sprintf("property %d carries key %s instead of its stored key", i, got)
+					}
+				case "IsKeyShortcut":
+					if got != val[fmt.Sprintf("key%d.IsShortcut", i)] {
+						problem = fmt.Sprintf("property %d reports IsKeyShortcut=%s but the key was read as shortcut=%s", i, got, val[fmt.Sprintf("key%d.IsShortcut", i)])
+					}
+				case "TokenType":
+					if !strings.Contains(got, "ast("+wantChild[i]+")") {
+						problem = fmt.Sprintf("property %d is built from %s instead of the child at the key's own index (%s)", i, got, wantChild[i])
+					}
+				}
+			}
+		}
+		if problem != "" {
+			r.Bad(key, pos, problem)
+		} else {
+			r.OK(key, pos, "keys, flags and children agree")
+		}
+	}
+}
+
+func init() {
+	register(&Rule{ID: "T-enum", Min: 6, Run: runTEnum,
+		Doc: "enum membership and duplicate detection are type-sensitive: Enum.Validate accepts a value iff some item has the same decoded text AND the same JSON kind (\"1\" is not 1), and the enum-rule scanner reports a second value as a duplicate iff text and kind both coincide with an earlier one"})
+}
+
+func runTEnum(c *load.Ctx, r *report.RuleResult) {
+	e := newAbsNodeEnv(c)
+	validate := c.Func(pkgConstraint, "Enum.Validate")
+	newItem := c.Func(pkgConstraint, "NewEnumItem")
+	enumT := namedType(c, pkgConstraint, "Enum")
+	itemT := namedType(c, pkgConstraint, "EnumItem")
+	jsonT := namedType(c, pkgJSON, "Type")
+	if validate == nil || newItem == nil || enumT == nil || itemT == nil || jsonT == nil {
+		r.Unk("anchor|constraint.Enum.Validate", "", "not found")
+		return
+	}
+	pos := c.Pos(validate.Pos())
+	mkItem := func(in *pe.Interp, who string) pe.Value {
+		// EnumItem embeds the (value, kind) pair
+		var fill func(t *types.Named, prefix string) *pe.StructV
+		fill = func(t *types.Named, prefix string) *pe.StructV {
+			st := t.Underlying().(*types.Struct)
+			sv := &pe.StructV{T: t, F: make([]pe.Value, st.NumFields())}
+			for i := 0; i < st.NumFields(); i++ {
+				f := st.Field(i)
+				if n, ok := f.Type().(*types.Named); ok {
+					if _, isStruct := n.Underlying().(*types.Struct); isStruct && f.Embedded() {
+						sv.F[i] = fill(n, prefix)
+						continue
+					}
+				}
+				switch {
+				case types.Identical(f.Type(), jsonT):
+					sv.F[i] = pe.NewSym(who+".kind", jsonT)
+				default:
+					sv.F[i] = pe.NewSym(who+"."+f.Name(), f.Type())
+				}
+			}
+			return sv
+		}
+		return fill(itemT, who)
+	}
+	e.cfg.Intrinsics[newItem.String()] = func(in *pe.Interp, args []pe.Value) (pe.Value, bool) {
+		return mkItem(in, "probe"), true
+	}
+	// any other way of normalising the probe is visible as an atom on its text only
+	outs := pe.ExploreFn(e.cfg, func(in *pe.Interp) pe.Value {
+		items := in.MakeSliceOf([]pe.Value{mkItem(in, "item")}, 1)
+		recv := structWith(in, enumT, map[string]pe.Value{"items": items, "uniqueIdx": pe.NilV{}, "ruleName": ""})
+		return in.Call(validate, []pe.Value{recv, pe.NewSym("value", validate.Params[1].Type())})
+	})
+	kinds := []string{"TypeString", "TypeInteger"}
+	for _, textEq := range []string{"true", "false"} {
+		for _, ik := range kinds {
+			for _, pk := range kinds {
+				key := fmt.Sprintf("member|text-equal=%s|item=%s|probe=%s", textEq, ik, pk)
+				matched := 0
+				for _, o := range outs {
+					val := o.ChoiceMap()
+					ok := true
+					sawText := false
+					for n, l := range val {
+						switch {
+						case strings.HasPrefix(n, "eq(") && (strings.Contains(n, ".value") || strings.Contains(n, "value")):
+							sawText = true
+							if l != textEq {
+								ok = false
+							}
+						case n == "item.kind" && l != ik:
+							ok = false
+						case n == "probe.kind" && l != pk:
+							ok = false
+						}
+					}
+					_ = sawText
+					if !ok {
+						continue
+					}
+					matched++
+					v, code := verdictOf(o)
+					if v == "undecided" || v == "crash" {
+						r.Unk(key, pos, v+": "+code)
+						continue
+					}
+					want := textEq == "true" && ik == pk
+					if (v == "accept") != want {
+						r.Bad(key, pos, fmt.Sprintf("a value whose text %s an item's and whose kind is %s against the item's %s is %sed; membership must compare both text and kind", map[string]string{"true": "equals", "false": "differs from"}[textEq], pk, ik, v))
+					} else {
+						r.OK(key, pos, v)
+					}
+				}
+				if matched == 0 {
+					r.Unk(key, pos, "no path for this valuation")
+				}
+			}
+		}
+	}
+	// the enum-rule scanner's duplicate key
+	vv := c.Func("rules/enum", "scanner.validateValue")
+	ni := c.Func("rules/enum", "newEnumItem")
+	scT := namedType(c, "rules/enum", "scanner")
+	keyT := namedType(c, "rules/enum", "enumItemValue")
+	if vv == nil || ni == nil || scT == nil || keyT == nil {
+		r.Unk("anchor|rules/enum.scanner.validateValue", "", "not found")
+		return
+	}
+	call := 0
+	e.cfg.Intrinsics[ni.String()] = func(in *pe.Interp, args []pe.Value) (pe.Value, bool) {
+		call++
+		st := keyT.Underlying().(*types.Struct)
+		sv := &pe.StructV{T: keyT, F: make([]pe.Value, st.NumFields())}
+		for i := 0; i < st.NumFields(); i++ {
+			if types.Identical(st.Field(i).Type(), jsonT) {
+				sv.F[i] = in.Concretize(pe.NewSym(fmt.Sprintf("value%d.kind", call), jsonT))
+			} else {
+				sv.F[i] = "same text"
+			}
+		}
+		return sv, true
+	}
+	mapT := fieldTypeOf(scT, "uniqueValues")
+	outs2 := pe.ExploreFn(e.cfg, func(in *pe.Interp) pe.Value {
+		call = 0
+		s := symStruct(in, scT, "s", map[string]pe.Value{"uniqueValues": &pe.MapV{}})
+		_ = mapT
+		first := in.Call(vv, []pe.Value{s})
+		second := in.Call(vv, []pe.Value{s})
+		return &pe.Tuple{E: []pe.Value{first, second}}
+	})
+	pos2 := c.Pos(vv.Pos())
+	for _, k1 := range kinds {
+		for _, k2 := range kinds {
+			key := fmt.Sprintf("duplicate|first=%s|second=%s", k1, k2)
+			matched := 0
+			for _, o := range outs2 {
+				val := o.ChoiceMap()
+				if val["value1.kind"] != k1 || val["value2.kind"] != k2 {
+					continue
+				}
+				matched++
+				if o.Undecided != "" || o.Panicked {
+					r.Unk(key, pos2, o.Exit())
+					continue
+				}
+				tp := o.Ret.(*pe.Tuple)
+				firstErr, secondErr := !pe.IsNil(tp.E[0]), !pe.IsNil(tp.E[1])
+				want := k1 == k2
+				switch {
+				case firstErr:
+					r.Bad(key, pos2, "the first value of a list is reported as a duplicate")
+				case secondErr != want:
+					r.Bad(key, pos2, fmt.Sprintf("a second value with the same text and kind %s after %s is %s; duplicates are values equal in text and kind", k2, k1, map[bool]string{true: "reported as a duplicate", false: "not reported"}[secondErr]))
+				default:
+					r.OK(key, pos2, fmt.Sprintf("duplicate=%v", secondErr))
+				}
+			}
+			if matched == 0 {
+				r.Unk(key, pos2, "no path for this valuation")
+			}
+		}
+	}
+}
